@@ -2,6 +2,7 @@ import ChiaModel.Model.Generator
 import ChiaModel.Props.C07
 import ChiaModel.Props.C11
 import ChiaModel.Lemmas.BundlePath
+import ChiaModel.Lemmas.BundlePerm
 /-
 C08 — what the mempool validated is what the block yields.
 -/
@@ -207,10 +208,11 @@ in both cases the conditions are the same modulo the visitor (`SameUpToVisitor`:
 same order up to the two mempool eligibility bits, equal bundle-level fields), the block cost is the
 bundle cost plus exactly `20 + 2·cost_per_byte`, and the block execution cost is the bundle's plus 20.
 
-Excluded (hence `_partial`): the *reversed spend order*.  The statement compares the bundle with the
+Excluded here (hence `_partial`): the *reversed spend order*.  The statement compares the bundle with the
 generator listing its spends in the same order (equivalently, `build_generator css` with the bundle
-`css.reverse`, see `bundle_path_eq_block_path_reversed_partial`); that acceptance and the aggregates do
-not depend on the order of the spends is C06 `open_perm_spends`, which is open. -/
+`css.reverse`, see `bundle_path_eq_block_path_reversed_partial`).  The statement for `build_generator css`
+itself is `bundle_path_eq_block_path` below, which adds that acceptance and the aggregates do not depend on
+the order of the spends (`Gn.runSpendbundle_reverse`, the bundle-path form of C06 `perm_spends`). -/
 theorem bundle_path_eq_block_path_partial (p : Params) (css : List CoinSpendM) (puz : Nat → RunRes) (L : Nat)
     (hwf : ∀ s ∈ css, WF s) (hph : ∀ s ∈ css, s.puzzleHash = Sexp.treeHash s.puzzle)
     (hint : hasFlag p.flags Gen.flagInternedGenerator = false) (hlen : css.length < 2^64) :
@@ -334,8 +336,8 @@ theorem bundle_path_eq_block_path_partial (p : Params) (css : List CoinSpendM) (
 /-- The same statement read from the generator's side: `build_generator css` (whose spend list is `css`
 reversed) run by the block path agrees with the bundle path run on the spends *in the generator's order*
 (`css.reverse`; the puzzle runs `puz i` are indexed in that order on both sides).  `_partial`: as in
-`bundle_path_eq_block_path_partial`, the step from `css.reverse` to `css` on the bundle side is the open
-spend-order independence (C06 `open_perm_spends`). -/
+`bundle_path_eq_block_path_partial`; the step from `css.reverse` to `css` on the bundle side is made in
+`bundle_path_eq_block_path`. -/
 theorem bundle_path_eq_block_path_reversed_partial (p : Params) (css : List CoinSpendM) (puz : Nat → RunRes) (L : Nat)
     (hwf : ∀ s ∈ css, WF s) (hph : ∀ s ∈ css, s.puzzleHash = Sexp.treeHash s.puzzle)
     (hint : hasFlag p.flags Gen.flagInternedGenerator = false) (hlen : css.length < 2^64) :
@@ -356,6 +358,90 @@ theorem bundle_path_eq_block_path_reversed_partial (p : Params) (css : List Coin
     (by rw [List.length_reverse]; exact hlen)
   rw [List.reverse_reverse] at h
   exact h
+
+/-! ## the generator `build_generator` really builds: spends in reverse order -/
+
+/-- "the same conditions modulo the visitor and the order of the spends": the block path's spends are the
+bundle path's spends *in reverse order* (`build_generator` lists them reversed), with `flags` masked to
+HAS_RELATIVE_CONDITION (the two eligibility bits are set by the mempool visitor only); the AGG_SIG_UNSAFE
+pairs agree up to listing order; every other bundle-level field other than `cost`, `execution_cost` and
+`validated_signature` is equal. -/
+def SameUpToVisitorRev (bn bb : Bundle) : Prop :=
+  bn.spends = (bb.spends.map blockSpend).reverse ∧
+  bn.reserveFee = bb.reserveFee ∧ bn.heightAbsolute = bb.heightAbsolute ∧ bn.secondsAbsolute = bb.secondsAbsolute ∧
+  bn.beforeHeightAbsolute = bb.beforeHeightAbsolute ∧ bn.beforeSecondsAbsolute = bb.beforeSecondsAbsolute ∧
+  List.Perm bn.aggSigUnsafe bb.aggSigUnsafe ∧ bn.removalAmount = bb.removalAmount ∧ bn.additionAmount = bb.additionAmount ∧
+  bn.conditionCost = bb.conditionCost
+
+/-- **The bundle path and the block path agree** — `run_spendbundle` on a spend bundle against
+`run_block_generator2` on the generator `build_generator` builds from it.  For a bundle `css` of well-formed
+coin spends (32-byte parents, u64 amounts, plainly serialised reveals) whose declared puzzle hashes match and
+which has fewer than 2^64 spends, in byte-cost mode (no `INTERNED_GENERATOR`), with a signature verdict that
+does not depend on the order of the (public key, signed text) pairs (true of BLS aggregate verification):
+let `g` be `build_generator css` — which lists the spends in REVERSE order —, let its run be the value of the
+quote at cost 20, let the puzzle runs of the block path be those of the bundle path re-indexed to the
+generator's order (`puz (n − 1 − i)`), and give the block path the limit `L + 20 + 2·cost_per_byte`.  Then
+
+* if `run_spendbundle` accepts under `L` and the signature check passes on the pairs it returns (or
+  signatures are not validated), `run_block_generator2` accepts; and
+* if `run_block_generator2` accepts, `run_spendbundle` accepts and the signature check passes on its pairs;
+
+in both cases the conditions are the same modulo the visitor and the order of the spends
+(`SameUpToVisitorRev`: the block path's spend records are the bundle path's in reverse order, equal up to the
+two mempool eligibility bits; equal bundle-level fields; AGG_SIG_UNSAFE pairs up to listing order), the block
+cost is the bundle cost plus exactly `20 + 2·cost_per_byte`, and the block execution cost is the bundle's
+plus 20.
+
+Proof: `bundle_path_eq_block_path_reversed_partial` (same order on both sides) composed with
+`runSpendbundle_reverse` (Lemmas/BundlePerm.lean: the order of the spends does not matter to `run_spendbundle`,
+by the refinement of the spend loop to the order-free rules of C01 and the permutation lemmas of C06). -/
+theorem bundle_path_eq_block_path (p : Params) (css : List CoinSpendM) (puz : Nat → RunRes) (L : Nat)
+    (hwf : ∀ s ∈ css, WF s) (hph : ∀ s ∈ css, s.puzzleHash = Sexp.treeHash s.puzzle)
+    (hint : hasFlag p.flags Gen.flagInternedGenerator = false) (hlen : css.length < 2^64)
+    (hsig : ∀ pairs pairs', List.Perm pairs pairs' → p.sigOk pairs = p.sigOk pairs') :
+    let g : GenInput := { len := (Sexp.serialize (buildGenerator css)).length, startsQuote := true,
+                          prog := buildGenerator css, nrefs := 0 }
+    let genRun : RunRes := some (20, quoted g.prog)
+    let L' := L + 20 + 2 * p.costPerByte
+    let puzG : Nat → RunRes := fun i => puz (css.length - 1 - i)
+    (∀ bb pairs, runSpendbundle p css puz L = .ok (bb, pairs) →
+      (hasFlag p.flags Gen.flagDontValidateSignature = true ∨ p.sigOk pairs = true) →
+      ∃ bn, native p g genRun puzG L' = .ok bn ∧ SameUpToVisitorRev bn bb ∧
+        bn.cost = bb.cost + (20 + 2 * p.costPerByte) ∧ bn.executionCost = bb.executionCost + 20) ∧
+    (∀ bn, native p g genRun puzG L' = .ok bn →
+      ∃ bb pairs, runSpendbundle p css puz L = .ok (bb, pairs) ∧
+        (hasFlag p.flags Gen.flagDontValidateSignature = true ∨ p.sigOk pairs = true) ∧ SameUpToVisitorRev bn bb ∧
+        bn.cost = bb.cost + (20 + 2 * p.costPerByte) ∧ bn.executionCost = bb.executionCost + 20) := by
+  intro g genRun L' puzG
+  have hrev := bundle_path_eq_block_path_reversed_partial p css puzG L hwf hph hint hlen
+  constructor
+  · intro bb pairs hb hs
+    obtain ⟨bb', pairs', hb', hpp, r1, r2, r3, r4, r5, r6, r7, r8, r9, r10, r11, _, r13⟩ :=
+      runSpendbundle_reverse p css puz puzG L bb pairs hint (fun k _ => rfl) hb
+    have hs' : hasFlag p.flags Gen.flagDontValidateSignature = true ∨ p.sigOk pairs' = true := by
+      rw [← hsig _ _ hpp]; exact hs
+    obtain ⟨bn, hn, ⟨v1, v2, v3, v4, v5, v6, v7, v8, v9, v10⟩, hc, he⟩ := hrev.1 bb' pairs' hb' hs'
+    refine ⟨bn, hn, ⟨?_, v2.trans r3, v3.trans r4, v4.trans r5, v5.trans r6, v6.trans r7, ?_, v8.trans r8, v9.trans r9,
+      v10.trans r10⟩, by rw [hc, r2], by rw [he, r11]⟩
+    · rw [v1, r1, List.map_reverse]
+    · rw [v7]; exact r13
+  · intro bn hn
+    obtain ⟨bb', pairs', hb', hs', ⟨v1, v2, v3, v4, v5, v6, v7, v8, v9, v10⟩, hc, he⟩ := hrev.2 bn hn
+    have hpuz : ∀ k, k < css.reverse.length → puz k = puzG (css.reverse.length - 1 - k) := by
+      intro k hk
+      rw [List.length_reverse] at hk
+      show puz k = puz (css.length - 1 - (css.reverse.length - 1 - k))
+      rw [List.length_reverse]
+      congr 1; omega
+    obtain ⟨bb, pairs, hb, hpp, r1, r2, r3, r4, r5, r6, r7, r8, r9, r10, r11, _, r13⟩ :=
+      runSpendbundle_reverse p css.reverse puzG puz L bb' pairs' hint hpuz hb'
+    rw [List.reverse_reverse] at hb
+    have hs : hasFlag p.flags Gen.flagDontValidateSignature = true ∨ p.sigOk pairs = true := by
+      rw [← hsig _ _ hpp]; exact hs'
+    refine ⟨bb, pairs, hb, hs, ⟨?_, v2.trans r3.symm, v3.trans r4.symm, v4.trans r5.symm, v5.trans r6.symm,
+      v6.trans r7.symm, ?_, v8.trans r8.symm, v9.trans r9.symm, v10.trans r10.symm⟩, by rw [hc, r2], by rw [he, r11]⟩
+    · rw [v1, r1, List.map_reverse, List.reverse_reverse]
+    · rw [v7]; exact r13.symm
 
 /-! ## non-vacuity of the hypotheses -/
 namespace Witness
@@ -379,6 +465,26 @@ example : ∀ s ∈ [cs0], s.puzzleHash = Sexp.treeHash s.puzzle := by
 
 /-- the bundle path accepts this bundle: the first half of `bundle_path_eq_block_path_partial` is not vacuous -/
 example : (runSpendbundle p0 [cs0] puz0 1000000).toBool = true := by decide +kernel
+
+/-- a second coin (other parent id): a two-spend bundle, so that the reversed order of `build_generator`
+matters; the signature verdict of `p0` is order-free -/
+def cs1 : CoinSpendM := { cs0 with parent := List.replicate 32 8 }
+
+example : ∀ s ∈ [cs0, cs1], WF s := by
+  intro s hs
+  simp only [List.mem_cons, List.mem_nil_iff, or_false] at hs
+  rcases hs with rfl | rfl <;> exact ⟨by decide, by decide, by decide, by decide⟩
+
+example : ∀ s ∈ [cs0, cs1], s.puzzleHash = Sexp.treeHash s.puzzle := by
+  intro s hs
+  simp only [List.mem_cons, List.mem_nil_iff, or_false] at hs
+  rcases hs with rfl | rfl <;> rfl
+
+example : ∀ pairs pairs' : List (Bytes × Bytes), List.Perm pairs pairs' → p0.sigOk pairs = p0.sigOk pairs' :=
+  fun _ _ _ => rfl
+
+/-- the bundle path accepts the two-spend bundle: the first half of `bundle_path_eq_block_path` is not vacuous -/
+example : (runSpendbundle p0 [cs0, cs1] puz0 2000000).toBool = true := by decide +kernel
 
 end Witness
 
